@@ -1,4 +1,6 @@
 import JjModel.Lemmas.GitBackend
+import JjModel.Model.CommitHash
+import JjModel.Generated.HashLayout
 /-!
   C17 — Commit backends return on read exactly what write reported.
 
@@ -61,6 +63,15 @@ theorem simple_all_empty_labels_counterexample :
     ∃ p r b, simpleWrite c = .ok (p, r) ∧ simpleRead p = .ok b ∧ b ≠ r := by
   refine ⟨_, _, _, rfl, rfl, ?_⟩
   decide
+
+/-- the model hashes commits in the layout of the current `#[derive(ContentHash)] struct Commit` -/
+theorem layout_commit : commitC.desc = JjModel.Generated.HashLayout.Commit := by rfl
+
+/-- **simple backend ids**: the id is the hash of `encCommit`, and `encCommit` determines the commit
+(every field: parents, predecessors, trees, labels, change id, description, both signatures with
+millisecond timestamps and offsets), so under A1 two commits that differ get different ids. -/
+theorem simple_id_distinguishes (c c' : Commit) (hc : commitC.dom c) (hc' : commitC.dom c')
+    (h : encCommit c = encCommit c') : c = c' := commitC.inj hc hc' h
 
 /-! ### Git backend -/
 
